@@ -22,7 +22,7 @@ var (
 	idTypes  [2][idTabSize]uintptr // first type seen for the program
 	idChecks uint64
 	idProgs  uint64
-	idViols  []IdentityViolation
+	idViols  = make([]IdentityViolation, 0, 8)
 )
 
 //go:norace
